@@ -126,6 +126,15 @@ func c15Run(c c15Cell) (bad bool, msg string) {
 	if ok, p := imagesEqualAt(got, want, b); !ok {
 		return true, fmt.Sprintf("cell %+v: pixel %v is %v, draw.Draw(Src) gives %v (input %v)", c, p, rgba64Of(got.At(p.X, p.Y)), rgba64Of(want.At(p.X, p.Y)), snap.At(p.X, p.Y))
 	}
+	// ... and in the target type's own representation (a non-premultiplied pixel with alpha 0
+	// still carries colour bytes, which draw.Draw keeps or drops in a definite way)
+	for y := b.Min.Y; y < b.Max.Y; y++ {
+		for x := b.Min.X; x < b.Max.X; x++ {
+			if g, w := fmt.Sprint(got.At(x, y)), fmt.Sprint(want.At(x, y)); g != w {
+				return true, fmt.Sprintf("cell %+v: pixel (%d,%d) is stored as %s, draw.Draw(Src) stores %s (input %v)", c, x, y, g, w, snap.At(x, y))
+			}
+		}
+	}
 	if ok, p := imagesEqualAt(src, snap, b); !ok {
 		return true, fmt.Sprintf("cell %+v: input pixel %v was modified", c, p)
 	}
@@ -260,6 +269,39 @@ func runC15(r *core.Run) {
 			hw++
 		}
 	}
+	// sequences on one Paletted image: convert, change palette entries in place (palette cycling),
+	// convert again - each conversion must reflect the palette as it is at that moment
+	{
+		rg := core.NewRNG(r.Seed, "C15", "palette-cycling")
+		for k := 0; k < 60; k++ {
+			img := newSource("Paletted", image.Rect(1, 2, 9, 7), false, rg).(*image.Paletted)
+			helper := c15Helpers[k%3]
+			for step := 0; step < 3; step++ {
+				var got image.Image
+				var want draw.Image
+				switch helper {
+				case "ToNRGBA":
+					got, want = prism.ConvertImageToNRGBA(img, 1+k%4), image.NewNRGBA(img.Rect)
+				case "ToRGBA":
+					got, want = prism.ConvertImageToRGBA(img, 1+k%4), image.NewRGBA(img.Rect)
+				default:
+					got, want = prism.ConvertImageToRGBA64(img, 1+k%4), image.NewRGBA64(img.Rect)
+				}
+				draw.Draw(want, img.Rect, img, img.Rect.Min, draw.Src)
+				r.AddEvals(1)
+				if ok, p := imagesEqualAt(got, want, img.Rect); !ok {
+					r.Violate("sequence", helper+"<-Paletted/after-palette-edit", fmt.Sprintf("%s of a Paletted image, conversion #%d after its palette had been edited in place: pixel %v is %v, draw.Draw gives %v", helper, step+1, p, rgba64Of(got.At(p.X, p.Y)), rgba64Of(want.At(p.X, p.Y))), map[string]any{"helper": helper, "step": step, "sequence_seed": r.Seed, "k": k})
+					break
+				}
+				// rotate the palette and overwrite an entry, in place
+				first := img.Palette[0]
+				copy(img.Palette, img.Palette[1:])
+				img.Palette[len(img.Palette)-1] = first
+				v := rg.U64()
+				img.Palette[rg.Intn(len(img.Palette))] = color.NRGBA{R: uint8(v), G: uint8(v >> 8), B: uint8(v >> 16), A: uint8(v >> 24)}
+			}
+		}
+	}
 	r.Obs("cells", len(cells))
 	r.Obs("cells_on_hand_written_paths", hw)
 	r.Sample(cells[len(cells)/4])
@@ -270,7 +312,7 @@ func runC15(r *core.Run) {
 	if r.Thorough() {
 		tier = "thorough"
 	}
-	out, reports, _, timedOut, err := core.RunRaceChild(work, "c15", []string{fmt.Sprintf("VERIF_SEED=%d", r.Seed)}, 20*time.Minute, "C15", tier)
+	out, reports, _, timedOut, err := core.RunRaceChild(work, "c15", []string{fmt.Sprintf("VERIF_SEED=%d", r.Seed), "GOMAXPROCS=3"}, 20*time.Minute, "C15", tier)
 	if timedOut {
 		r.Inconclusive("race pass watchdog fired")
 	} else if err != nil {
